@@ -193,7 +193,7 @@ def replay_fail(cex, d):
     numtype = fx.get('numtype', 'int32')
     kind = fx['kind']
     if max([n] + ks) > 400:
-        return {'reproduced': False, 'detail': 'sizes too large to materialise'}
+        return {'reproduced': False, 'skip': True, 'detail': 'sizes too large to materialise'}
     isz = ITEMSIZE[numtype]
     rb = isz
     for x in atom:
